@@ -316,6 +316,11 @@ class Model:
             return [
                 Val(outs[0], x.val.copy(), np.zeros_like(x.jac), np.zeros_like(x.jabs), False, frozenset(), depth, False, x.vabs.copy())
             ]
+        if op == "cast":
+            # conversion to the other float dtype and the graph goes on there: identity in the model (the
+            # rounding it introduces is covered by using float32's eps for the whole program)
+            x = ins[0]
+            return [mk(outs[0], x.val.copy(), x.jac.copy(), x.jabs.copy(), x.vabs.copy())]
         if op == "probe":
             x = ins[0]
             return [mk(outs[0], x.val.copy(), x.jac.copy(), x.jabs.copy(), x.vabs.copy())]
